@@ -44,7 +44,7 @@ impl Check for C07 {
         "reads_compared"
     }
     fn rule(&self) -> String {
-        "G2 transition systems (<=4 states incl. array states, <=3 inputs, init chains reading earlier states, const states, shared sub-terms; widths <= 34 bits; no div/rem, no array equality and no multi-word values because the evaluator does not implement / mis-implements them, which is C06 territory) x operation histories of 5..60 operations {init(Zero|Random(seed)), set(input), step, take_snapshot, restore_snapshot(any earlier id, repeatedly, out of order), re-init}; after EVERY operation every root expression, every state/input symbol and up to 6 inner nodes are read through Simulator::get and compared with the reference simulator R3. Random init: free values are read back (seed-defined), states with init must equal their init expression, and a fresh interpreter with the same seed must give the same values. distinct_nontrivial = distinct (system, history) pairs with at least one step and one input change.".into()
+        "G2 transition systems (<=4 states incl. array states, <=3 inputs, init chains reading earlier states, const states, states without a next function (in half of the systems; they keep their value) at any position among the states, shared sub-terms; widths <= 34 bits; no div/rem, no array equality and no multi-word values because the evaluator does not implement / mis-implements them, which is C06 territory) x operation histories of 5..60 operations {init(Zero|Random(seed)), set(input), step, take_snapshot, restore_snapshot(any earlier id, repeatedly, out of order), re-init}; after EVERY operation every root expression, every state/input symbol and up to 6 inner nodes are read through Simulator::get and compared with the reference simulator R3. Random init: free values are read back (seed-defined), states with init must equal their init expression, and a fresh interpreter with the same seed must give the same values. distinct_nontrivial = distinct (system, history) pairs with at least one step and one input change.".into()
     }
     fn assumptions(&self) -> Vec<String> {
         vec![
@@ -57,6 +57,8 @@ impl Check for C07 {
         let mut ctx = Context::default();
         let mut cfg = SysCfg::default();
         cfg.divrem = false;
+        // states without a next function keep their value (there is nothing to replace it with)
+        cfg.nextless_states = rng.chance(1, 2);
         cfg.array_eq = false;
         cfg.array_inputs = false;
         cfg.max_state_bits = 16;
